@@ -6,6 +6,7 @@ From CiwV Require Acc.C17.
 From CiwV Require Acc.C19.
 From CiwV Require Acc.C20.
 From CiwV.Engine Require Codec.
+From CiwV.Inv Require ConserveRun.
 Import ListNotations.
 Open Scope Z_scope.
 
@@ -40,6 +41,7 @@ Fixpoint upto (m : nat) : list nat := match m with O => [O] | S k => upto k ++ [
 
 Definition dispatch_model (name : Z) (s : sx) : sx :=
   match name with
+  | 34 => ConserveRun.run_wfx s   (* does a snapshot satisfy the conservation invariant WFx []? *)
   | 31 => Codec.run_wrap s   (* engine model: Simulation.wrap_up_servers(T) *)
   | 30 => Codec.run_step s   (* engine model: one event from the implementation's snapshot *)
   | 12 => (* Schedule object: states after 0..m calls of get_next_shift *)
